@@ -22,15 +22,15 @@ type cond struct{ Field, Op, Val string }
 
 // Target is one conditional block of the file.
 type Target struct {
-	ID    int
-	Path  string // path of the step / case owning the match
-	Kind  string // if | case | drop
-	Conds []cond // all enclosing conditions, outermost first
-	Input int    // -1: pipeline transformations, else index of the input whose extractions hold it
-	List  *yaml.Node // the then-list (if/case) ...
-	Step  *yaml.Node // ... or the drop step itself
+	ID     int
+	Path   string     // path of the step / case owning the match
+	Kind   string     // if | case | drop
+	Conds  []cond     // all enclosing conditions, outermost first
+	Input  int        // -1: pipeline transformations, else index of the input whose extractions hold it
+	List   *yaml.Node // the then-list (if/case) ...
+	Step   *yaml.Node // ... or the drop step itself
 	Parent *yaml.Node // list holding Step (drop)
-	Pos   int
+	Pos    int
 }
 
 var facilityNames = []string{"kern", "user", "mail", "daemon", "auth", "syslog", "lpr", "news", "uucp", "cron", "authpriv", "ftp",
@@ -333,10 +333,10 @@ func solve(conds []cond) map[string]string {
 // ---- inversion of the input's extractions
 
 type xstep struct {
-	typ, key, dest string
+	typ, key, dest    string
 	left, wild, right string // extractHead / extractTail pattern parts
-	regex   string
-	mapping map[string]string
+	regex             string
+	mapping           map[string]string
 }
 
 func unescapePattern(s string) string {
@@ -550,8 +550,8 @@ func syslogLine(raw map[string]string, levelMapping []string) string {
 
 // Probes are the lines sent to each input.
 type Probes struct {
-	PerInput [][]string
-	Targets  []*Target
+	PerInput   [][]string
+	Targets    []*Target
 	LineTarget map[string]int // line -> target id (for coverage reports)
 }
 
